@@ -101,6 +101,7 @@ class RFn(Fn):
             k = self.sc.get(names_of(e)[0])
             if k in ("str", "static"): return True
             if k == "strlike": self.evaluates_as_ref(e); return True
+            if k == "ref" and self.env.get("copy_is_string"): return True     # the stored copy has the bytes of the string
             return False
         if e[0] == "mcall" and e[3] == "as_ref" and not e[4]:
             z = strip(e[2])
@@ -411,6 +412,8 @@ class RFn(Fn):
                 return [("s", "RReturn RRUnit", e[1])]
             return [("s", "RReturn (%s)" % self.result(e[2]), e[1])]
         if k == "macro":
+            if e[2] in ("unreachable", "panic") and all(a[0] == "strlit" for a in e[3][:1]):
+                return [("s", "RUnreachable", e[1])]
             if e[2] == "assert" and len(e[3]) >= 1 and (len(e[3]) == 1 or e[3][1][0] == "strlit"):
                 return [("s", "RAssertP (%s)" % self.boolean(e[3][0]), e[1])]
             self.lost(e, "macro `%s!` is outside the subset" % e[2])
